@@ -18,8 +18,11 @@ def ins_scenario(seed, n):
     r = R.stream(seed, "ins-scenario", n)
     dims = r.choice([2, 2, 3])
     model = {"name": "gauss", "dims": dims}
-    if r.random() < 0.15:
+    mk = r.random()
+    if mk < 0.15:
         model = {"name": "gauss_nonuniform", "dims": dims}
+    elif mk < 0.35:
+        model = {"name": "gauss_constrained", "dims": dims}
     nlive = r.choice([40, 60, 80, 120, 150])
     kwargs = dict(nlive=nlive, seed=R.seed32(seed, "run-seed", n), plot=False)
     kwargs["min_samples"] = r.choice([5, 20, nlive // 2, nlive - 5, nlive])
